@@ -75,3 +75,8 @@ Theorem C07_maxmsgsize_option_semantics : forall (o : opts) (b : bytes), (match 
 Proof. exact maxmsgsize_semantics. Qed.
 Theorem C07_handshake_ivl_option_semantics : forall (o : opts) (b : bytes), (match apply_opt o HANDSHAKE_IVL b with | inl o' => exists v, i32_of b = Some v /\ 0 <= v /\ handshake_ivl_of o' = ivl_decode v /\ (forall g, g <> F_handshake_ivl -> o' g = o g) | inr e => e = EVal HANDSHAKE_IVL /\ (i32_of b = None \/ exists v, i32_of b = Some v /\ v < 0) end)%Z.
 Proof. exact handshake_ivl_semantics. Qed.
+(* composed with the live decoder: MAXMSGSIZE = m set through set_option admits a frame of exactly m bytes and rejects
+   anything longer, whatever follows in the buffer *)
+From RZ Require Import Model.EngineCfg Proofs.OptionsEngine.
+Theorem C07_maxmsgsize_option_limit : forall (o : opts) (m : Z), (0 <= m <= 9223372036854775807)%Z -> exists o', apply_opt o MAXMSGSIZE (i64_bytes m) = inl o' /\ cfg_max_msg_size o' = m /\ (forall f rest, fits f -> len (f_payload f) = Z.to_N m -> dec_buffer (cfg_max_msg_size o') (enc_codec f ++ rest) = DFrame f (length (enc_codec f))) /\ (forall f rest, fits f -> Z.to_N m < len (f_payload f) -> dec_buffer (cfg_max_msg_size o') (enc_codec f ++ rest) = DErr).
+Proof. exact maxmsgsize_option_limit. Qed.
